@@ -13,8 +13,9 @@
        solver returns.
    (2) Over the model of the solver's bookkeeping primitives (Model/Homes.v) every plan job has exactly one home after ANY
        history of guarded steps, and what Solution::from hands to the writer after finalize is an exact partition.
-   (3) The clause "every tour serves at least one job" is FALSE of the faithful model (and of the code: finding C02-F1):
-       notify_failure of the tour-duration limit pushes an empty route that nothing removes. *)
+   (3) The clause "every tour serves at least one job" was FALSE of the code (finding C02-F1, fixed by commit 03c7b61):
+       notify_failure of the tour-duration limit pushes an empty route; finalize_insertion_ctx now removes it, and the
+       clause is proved for every history that ends with finalize_insertion_ctx. *)
 From VRP Require Import Base.Tac Model.Core Spec.Valid Model.Homes Proofs.ValidP Proofs.HomesP.
 
 (* ---- (1) the checker decides the statement *)
@@ -59,12 +60,23 @@ Theorem C02_reported_no_foreign : forall jobs s, Inv jobs s -> h_required s = []
 Proof. intros jobs s HI Hr. exact (proj2 (reported_partition jobs s HI Hr)). Qed.
 
 (* ---- (3) "every tour serves at least one job" *)
-(* partial: it holds when remove_empty_routes is the last step before the solution is built (the proposed fix) *)
-Theorem C02_tours_serve_a_job_partial : forall s, ~ In [] (h_routes (step s HDropEmpty)).
-Proof. exact drop_empty_no_empty_route. Qed.
+(* finalize_insertion_ctx = finalize_unassigned; remove_empty_routes (commit 03c7b61, finding C02-F1 fixed): after ANY
+   history that ends with it no reported tour is empty ... *)
+Theorem C02_tours_serve_a_job : forall jobs ops, ~ In [] (h_routes (run (init jobs) (ops ++ finalize_ctx))).
+Proof. exact history_no_empty_tour. Qed.
 
-(* refuted as the code stands: a guarded history ending with finalize that reports an empty tour *)
-Theorem C02_tours_serve_a_job_refuted :
+(* ... and the jobs are still an exact partition *)
+Theorem C02_history_reported_partition_ctx : forall jobs ops,
+  guards (init jobs) (ops ++ finalize_ctx) ->
+  let s := run (init jobs) (ops ++ finalize_ctx) in
+  forall j, In j jobs ->
+     (count_occ Z.eq_dec (concat (h_routes s)) j = 1%nat /\ count_occ Z.eq_dec (reported_unassigned s) j = 0%nat)
+     \/ (count_occ Z.eq_dec (concat (h_routes s)) j = 0%nat /\ count_occ Z.eq_dec (reported_unassigned s) j = 1%nat).
+Proof. exact history_reported_ctx. Qed.
+
+(* the final remove_empty_routes is necessary: with finalize_unassigned alone (the code before 03c7b61, and mutant C02-5) a
+   guarded history reports an empty tour, because notify_failure of the duration limit pushes a job-less route *)
+Theorem C02_remove_empty_routes_needed :
   exists jobs ops, guards (init jobs) (ops ++ [HFinalize]) /\ In [] (h_routes (run (init jobs) (ops ++ [HFinalize]))).
 Proof. exact empty_route_reported. Qed.
 
